@@ -375,7 +375,7 @@ def strategy(tier):
             "items": n, "end": end, "gen_nested": gn, "gen_record": gr, "nested_stream": ns, "create_in": ci, "consume": co, "mode": mo, "break_after": ba,
             "gen_suspends": gs or mo == "timeout", "gen_span": gsp,
         },  # fmt: skip
-        st.integers(0, 4),
+        st.one_of(st.integers(0, 4), st.integers(0, 4), st.integers(5, 14)),  # also long streams (many nested scopes / records)
         st.sampled_from(["stop", "stop", "raise"]),
         st.booleans(),
         st.booleans(),
